@@ -25,12 +25,23 @@ import (
 	"github.com/codelaboratoryltd/bng/pkg/allocator"
 	"pgregory.net/rapid"
 
+	"bngverif/internal/pools"
 	"bngverif/internal/vstat"
 )
 
-var subs = []string{"s0", "s1", "s2", "s3", "s4", "s5"}
+// defaultSubs is the historical 6-subscriber alphabet (scheme "token"); every generated case draws its own
+// alphabet from pools.GenIDScheme (MAC strings, hex DUIDs, circuit-ids with "/" and ":", ids that are
+// prefixes/suffixes/last path elements of each other, ids containing the pool id or the key prefix, unicode,
+// 200-byte ids).
+var defaultSubs = []string{"s0", "s1", "s2", "s3", "s4", "s5"}
+
+const nSubs = 6
 
 const poolID = "p1"
+
+// siblingPools: ids of OTHER pools whose records live in the same store ("/allocation/<pool>/<subscriber>").
+// Their keys must neither be loaded nor watched by the pool under test; "p10" and "p1-b" start with its id.
+var siblingPools = []string{"p10", "p1-b", "p10", "p", "P1"}
 const keyPrefix = "/allocation/" + poolID + "/"
 const epochPeriod = time.Hour
 
@@ -40,7 +51,7 @@ type op struct {
 	Arg  int
 }
 
-func (o op) String() string { return fmt.Sprintf("%s(%s,%d)", o.Kind, subs[o.Sub%len(subs)], o.Arg) }
+func (o op) String() string { return fmt.Sprintf("%s(#%d,%d)", o.Kind, o.Sub%nSubs, o.Arg) }
 
 type distCase struct {
 	Mode     string // session | lease
@@ -51,6 +62,26 @@ type distCase struct {
 	QOrder   []int // ranking for Query results
 	Racy     bool  // deliveries may be late (after later local ops on the key) and out of per-key order
 	Exercise bool  // do not steer around listed findings
+	Sibling  string   // id of another pool that keeps records in the same store ("" = "p10")
+	IDScheme string   // name of the subscriber-id alphabet
+	IDs      []string // the alphabet: nSubs distinct ids (nil: defaultSubs)
+}
+
+// ids returns the case's subscriber-id alphabet.
+func (cs *distCase) ids() []string {
+	if len(cs.IDs) == 0 {
+		return defaultSubs
+	}
+	return cs.IDs
+}
+
+func (cs *distCase) sub(i int) string { ids := cs.ids(); return ids[i%len(ids)] }
+
+func (cs *distCase) sibling() string {
+	if cs.Sibling == "" {
+		return "p10"
+	}
+	return cs.Sibling
 }
 
 type violation struct {
@@ -232,7 +263,7 @@ func (n *node) pendingRemoteFor(sub string) bool {
 func (n *node) checkAgree(api, subject string, failed []string, held bool) *violation {
 	st := n.stored()
 	seen := map[string]string{}
-	for _, s := range subs {
+	for _, s := range n.cs.ids() {
 		mem := n.get(s)
 		if mem != "" {
 			if o, dup := seen[mem]; dup {
@@ -317,6 +348,15 @@ func (n *node) settleRemote() *violation {
 func (n *node) deliverAt(i int) *violation {
 	pend := n.st.pendingCopy()
 	ev := pend[i]
+	if !strings.HasPrefix(ev.key, keyPrefix) {
+		// an event for another pool's key: this pool did not subscribe to it (the harness store only queues it if
+		// the registered watch prefix is wider than the pool's own key prefix); whatever it does to the pool's
+		// memory is judged against the pool's own records
+		n.st.deliver(i)
+		n.logf("deliver#%d(foreign key %s,%s)", ev.seq, ev.key, evDesc(ev))
+		n.class("delivery:foreign-key")
+		return n.checkAgree("deliver-foreign-key", "", nil, false)
+	}
 	firstForKey := true
 	for j := 0; j < i; j++ {
 		if pend[j].key == ev.key {
@@ -338,6 +378,14 @@ func (n *node) deliverAt(i int) *violation {
 	}
 	sub := strings.TrimPrefix(ev.key, keyPrefix)
 	pre := n.get(sub)
+	if strings.Contains(sub, "/") {
+		// the handler must take the id from the key as a whole, not its last path element
+		if ev.deleted {
+			n.class("delivery:delete-event-id-with-slash")
+		} else {
+			n.class("delivery:put-event-id-with-slash")
+		}
+	}
 	n.st.deliver(i)
 	n.logf("deliver#%d(%s,%s,remote=%v)=%s", ev.seq, sub, evDesc(ev), ev.remote, n.get(sub))
 	if stale {
@@ -428,7 +476,7 @@ func (n *node) freeIdx() []int {
 	for _, p := range n.stored() {
 		used[p] = true
 	}
-	for _, s := range subs {
+	for _, s := range n.cs.ids() {
 		if g := n.get(s); g != "" {
 			used[g] = true
 		}
@@ -541,7 +589,7 @@ func (n *node) execute() *violation {
 
 func (n *node) step(o op) *violation {
 	cs := n.cs
-	sub := subs[o.Sub%len(subs)]
+	sub := cs.sub(o.Sub)
 	key := keyPrefix + sub
 	ctx := context.Background()
 	localPre := func() *violation {
@@ -715,17 +763,76 @@ func (n *node) step(o op) *violation {
 			cls += "-move"
 		}
 		n.class("remote:put-" + cls)
+		if strings.Contains(sub, "/") {
+			n.class("remote:put-id-with-slash")
+		}
 		if strings.HasPrefix(cls, "other-free") {
 			n.class("nt:remote-not-first-free")
 		}
 		n.st.remoteWrite(key, n.remoteRecord(sub, prefix), false)
 		n.logf("remotePut(%s,%s)", sub, prefix)
 		return nil
+	case "siblingPut", "siblingDel":
+		// another pool ("p10", "p1-b", ...) keeps its records in the same store, for the same subscriber ids and
+		// - pools of different routing instances reuse private ranges - the same addresses
+		skey := "/allocation/" + cs.sibling() + "/" + sub
+		if o.Kind == "siblingDel" {
+			found := false
+			for _, r := range n.st.snapshot() {
+				found = found || r.key == skey
+			}
+			if !found {
+				return nil
+			}
+			n.st.remoteWrite(skey, nil, true)
+			n.logf("siblingDel(%s,%s)", cs.sibling(), sub)
+		} else {
+			total := poolUnits(cs.CIDR, cs.Unit)
+			lo, hi := 0, total
+			if n.lease() {
+				lo, hi = 1, total-1
+			}
+			if hi-lo > 12 {
+				hi = lo + 12
+			}
+			if hi <= lo {
+				return nil
+			}
+			prefix := n.unitPrefix(lo + o.Arg%(hi-lo))
+			b, _ := json.Marshal(allocator.DistributedAllocation{PoolID: cs.sibling(), SubscriberID: sub, Prefix: prefix,
+				Epoch: n.epoch(), AllocatedAt: time.Unix(1700000000, 0).UTC()})
+			n.st.remoteWrite(skey, b, false)
+			n.logf("siblingPut(%s,%s,%s)", cs.sibling(), sub, prefix)
+		}
+		n.class("sibling-pool-records")
+		return n.checkAgree("sibling-pool-write", "", nil, false)
 	case "remoteDel":
 		if _, ok := n.stored()[sub]; !ok {
-			return nil
+			// nothing recorded for the drawn subscriber: the other node releases one that has a record
+			// (construction over rejection; the choice is a function of the case)
+			var have, haveSep []string
+			st := n.stored()
+			for _, s := range cs.ids() {
+				if _, ok := st[s]; ok {
+					have = append(have, s)
+					if strings.Contains(s, "/") {
+						haveSep = append(haveSep, s)
+					}
+				}
+			}
+			if len(have) == 0 {
+				return nil
+			}
+			if len(haveSep) > 0 && o.Arg%2 == 0 {
+				have = haveSep // every other time one whose id contains the key separator, if there is one
+			}
+			sub = have[(o.Arg/2)%len(have)]
+			key = keyPrefix + sub
 		}
 		n.class("remote:del")
+		if strings.Contains(sub, "/") {
+			n.class("remote:del-id-with-slash")
+		}
 		n.st.remoteWrite(key, nil, true)
 		n.logf("remoteDel(%s)", sub)
 		return nil
@@ -799,7 +906,7 @@ func okerr(err error) string {
 // beforeSnapshot: what the stopping node answers, for subscribers whose state is settled.
 func (n *node) beforeSnapshot() map[string]string {
 	b := map[string]string{}
-	for _, s := range subs {
+	for _, s := range n.cs.ids() {
 		if n.notUp || n.pendingRemoteFor(s) || n.expired[s] {
 			b[s] = "?"
 			continue
@@ -833,7 +940,7 @@ func (n *node) compareRestart(r *node, contents []rec, before map[string]string,
 			}
 		}
 	}
-	for _, s := range subs {
+	for _, s := range n.cs.ids() {
 		g := r.get(s)
 		if g == "" {
 			continue
@@ -950,7 +1057,7 @@ func genOps(rt *rapid.T, w weights, maxLen int) []op {
 	for i := range ops {
 		ops[i] = op{
 			Kind: rapid.SampledFrom(kinds).Draw(rt, "kind"),
-			Sub:  rapid.IntRange(0, len(subs)-1).Draw(rt, "sub"),
+			Sub:  rapid.IntRange(0, nSubs-1).Draw(rt, "sub"),
 			Arg:  rapid.IntRange(0, 47).Draw(rt, "arg"),
 		}
 	}
@@ -1021,6 +1128,9 @@ func genCase(rt *rapid.T, mode string, w weights, maxLen int, racyBits int) *dis
 	_ = g
 	cs.QOrder = rapid.Permutation([]int{0, 1, 2, 3, 4, 5, 6, 7}).Draw(rt, "queryOrder")
 	// (rapid's integer ranges favour small values, so shares are drawn as coin flips)
+	sch := pools.GenIDScheme(nSubs, poolID).Draw(rt, "ids")
+	cs.IDScheme, cs.IDs = sch.Name, sch.IDs
+	cs.Sibling = rapid.SampledFrom(siblingPools).Draw(rt, "siblingPool")
 	cs.Racy = oneIn(rt, "racy", racyBits)
 	cs.Exercise = oneIn(rt, "exercise", 3)
 	cs.Ops = genOps(rt, w, maxLen)
@@ -1032,6 +1142,21 @@ func genCase(rt *rapid.T, mode string, w weights, maxLen int, racyBits int) *dis
 // explore runs the whole enumeration for one generated history.
 func explore(t *testing.T, rt vstat.Fataler, cs *distCase, doStops, doFails bool, extraFail [][]int) {
 	agg := map[string]bool{"mode:" + cs.Mode: true}
+	scheme := cs.IDScheme
+	if scheme == "" {
+		scheme = "token"
+	}
+	agg["ids:"+scheme] = true
+	for _, id := range cs.ids() {
+		if strings.Contains(id, "/") {
+			agg["ids:some-id-contains-slash"] = true
+		}
+		for _, o := range cs.ids() {
+			if o != id && strings.HasPrefix(o, id+"/") {
+				agg["ids:one-id-nests-under-another"] = true
+			}
+		}
+	}
 	if cs.Racy {
 		agg["sched:racy"] = true
 	} else {
@@ -1118,17 +1243,17 @@ func explore(t *testing.T, rt vstat.Fataler, cs *distCase, doStops, doFails bool
 		sb.WriteString(o.String())
 		sb.WriteByte(';')
 	}
-	fp := vstat.Hash(cs.Mode, cs.CIDR, cs.Unit, cs.Grace, fmt.Sprint(cs.QOrder), cs.Racy, sb.String())
+	fp := vstat.Hash(cs.Mode, cs.CIDR, cs.Unit, cs.Grace, fmt.Sprint(cs.QOrder), cs.Racy, sb.String(), strings.Join(cs.ids(), "\x00"), cs.sibling())
 	vstat.Case(nt, fp, func() any {
 		return map[string]any{"mode": cs.Mode, "pool": cs.CIDR, "unit": cs.Unit, "grace": cs.Grace, "query_order": cs.QOrder,
-			"racy": cs.Racy, "ops": sb.String(), "store_ops": N, "runs": runs}
+			"racy": cs.Racy, "ops": sb.String(), "store_ops": N, "runs": runs, "id_scheme": scheme, "ids": cs.ids(), "sibling_pool": cs.sibling()}
 	}, cls...)
 }
 
-var wRestart = weights{"alloc": 6, "allocMAC": 2, "renew": 2, "release": 4, "restart": 1, "deliver": 2}
-var wRestartLease = weights{"alloc": 6, "allocMAC": 2, "renew": 3, "release": 3, "tick": 4, "restart": 1, "deliver": 2}
-var wReplica = weights{"alloc": 4, "allocMAC": 1, "renew": 1, "release": 3, "remotePut": 5, "remoteDel": 2, "deliver": 6, "restart": 1}
-var wReplicaLease = weights{"alloc": 4, "allocMAC": 1, "renew": 2, "release": 3, "remotePut": 5, "remoteDel": 2, "deliver": 6, "tick": 2, "restart": 1}
+var wRestart = weights{"alloc": 6, "allocMAC": 2, "renew": 2, "release": 4, "restart": 1, "deliver": 2, "siblingPut": 1}
+var wRestartLease = weights{"alloc": 6, "allocMAC": 2, "renew": 3, "release": 3, "tick": 4, "restart": 1, "deliver": 2, "siblingPut": 1}
+var wReplica = weights{"alloc": 4, "allocMAC": 1, "renew": 1, "release": 3, "remotePut": 5, "remoteDel": 4, "deliver": 6, "restart": 1, "siblingPut": 2, "siblingDel": 1}
+var wReplicaLease = weights{"alloc": 4, "allocMAC": 1, "renew": 2, "release": 3, "remotePut": 5, "remoteDel": 4, "deliver": 6, "tick": 2, "restart": 1, "siblingPut": 2, "siblingDel": 1}
 
 func genExtraFail(rt *rapid.T) [][]int {
 	n := rapid.IntRange(0, 2).Draw(rt, "nMultiFail")
@@ -1159,7 +1284,7 @@ func TestPropRestartLease(t *testing.T) {
 
 // TestPropReplicaSession: local ops interleaved with announcements from another node and explicit deliveries.
 func TestPropReplicaSession(t *testing.T) {
-	vstat.Checks(700, 14000)
+	vstat.Checks(1500, 24000)
 	rapid.Check(t, func(rt *rapid.T) {
 		cs := genCase(rt, "session", wReplica, 16, 2)
 		explore(t, rt, cs, true, false, nil)
@@ -1168,7 +1293,7 @@ func TestPropReplicaSession(t *testing.T) {
 
 // TestPropReplicaLease: the same in lease mode.
 func TestPropReplicaLease(t *testing.T) {
-	vstat.Checks(900, 18000)
+	vstat.Checks(1700, 28000)
 	rapid.Check(t, func(rt *rapid.T) {
 		cs := genCase(rt, "lease", wReplicaLease, 14, 2)
 		explore(t, rt, cs, true, false, nil)
